@@ -304,14 +304,26 @@ func (c *Case) build() (src, want string, panics bool) {
 			out("fresh", round, fb)
 		}
 	}
-	// character literals
-	for _, ch := range c.Chars {
-		stmt(`fmt.Println("char", %s)`, ch)
+	// copy from a string moves bytes
+	stmt("cp := []byte(b)")
+	stmt("ncp := copy(cp, a)")
+	stmt(`fmt.Println("copy", ncp, cp, []byte(a))`)
+	{
+		cp := []byte(B)
+		ncp := copy(cp, A)
+		out("copy", ncp, cp, []byte(A))
+	}
+	// character literals, also under a sign
+	for n, ch := range c.Chars {
 		v, _, _, err := strconv.UnquoteChar(ch[1:len(ch)-1], '\'')
 		if err != nil {
 			panic("bad char literal in pool: " + ch)
 		}
+		stmt(`fmt.Println("char", %s)`, ch)
 		out("char", v)
+		stmt("d%d := 7 + -%s", n, ch)
+		stmt(`fmt.Println("charsign", -%s, - -%s, 1000 - %s, d%d)`, ch, ch, ch, n)
+		out("charsign", -v, v, 1000-v, 7-v)
 	}
 	if c.OobIdx >= 0 {
 		stmt("k := %d", c.OobIdx)
@@ -432,9 +444,9 @@ func TestCharLits(t *testing.T) {
 		}
 		r.Eval(1)
 		r.NontrivialN(1)
-		src := "import \"fmt\"\nx := " + l + "\nfmt.Println(x, " + l + ")\n"
+		src := "import \"fmt\"\nx := " + l + "\ny := -" + l + "\nfmt.Println(x, " + l + ", y, 1 - -" + l + ")\n"
 		res := goat.EvalOnce(src)
-		exp := fmt.Sprintln(want, want)
+		exp := fmt.Sprintln(want, want, -want, 1+want)
 		if res.Failed() || res.Stdout != exp {
 			r.Fail(t, &ev.Failure{Kind: "charlit", Case: l, Msg: fmt.Sprintf("character literal %s: Go gives %d, goatlang printed %q %s", l, want, res.Stdout, res.ErrString())})
 			return
